@@ -195,7 +195,7 @@ class Family:
 
     def pairs_stage(self, nprog, nsess, maxreq, stores='mem,fs,pg'):
         tr = os.path.join(self.d, 'pairs.ndjson')
-        p = core.run_harness(['vise-pairs', tr, str(nprog), str(nsess), str(maxreq), stores])
+        p = core.run_harness(['vise-pairs', tr, str(nprog), str(nsess), str(maxreq), stores], env=getattr(self, 'pairs_env', None))
         summ = harness_summary(p)
         if summ.get('hang'):
             pass
@@ -300,6 +300,11 @@ def known_matcher(pid):
         if inv in ('C08_Resumable', 'C08_ReqAccount', 'C08_ReqLevels'):
             if 'non-utf8-value' in ks and any(r <= ev.get('req', -1) for r in ctx.get('badutf', {}).get(ev.get('sid'), [])):
                 return ks['non-utf8-value']
+        # kept flushing persister: a session that is new to the store directly after an OVER-LONG refused request of another session
+        # (Finish of an uninitialised engine neither saves nor flushes) is created from that other session's content
+        if inv == 'C17_AsIfNeverSent' and 'kept-persister-after-overlong' in ks and ev.get('ev') == 'pair':
+            if ev.get('modeb') == 'R' and ev.get('flush') and ev.get('after') == 'long':
+                return ks['kept-persister-after-overlong']
         if inv in ('C08_NoPanic', 'C08_ReqNoPanic') and 'maxlevel-panic' in ks:
             if ctx['req'].get(key, {}).get('panic') == 'maxlevel':
                 return ks['maxlevel-panic']
